@@ -2,6 +2,8 @@
 
 package transfer
 
+import "github.com/sheerbytes/sheerbytes/pkg/manifest"
+
 // Exports for the C19 harness (layered in through -overlay; never part of a normal build).
 
 func VerifChunkTotal(fileSize int64, chunkSize uint32) uint32 { return chunkTotal(fileSize, chunkSize) }
@@ -36,4 +38,39 @@ func VerifReloadSidecar(path, id string, size int64, chunkA, chunkB uint32) (uin
 		return 0, 0, 0, err
 	}
 	return got.TotalChunks, got.ChunkSize, got.bitmap.CountSet(), nil
+}
+
+// VerifSenderSchedule drives the sender's real chunk scheduler (sendFileState.nextChunkToSend)
+// for one file: the complete default schedule, then a re-send of every index requested before
+// the schedule has started and after it has finished (the two re-send sites). Each entry is
+// (index, length) as the data-stream worker would read and send it.
+func VerifSenderSchedule(size int64, chunk uint32) (sched, resendBefore, resendAfter [][2]uint32) {
+	mk := func() *sendFileState {
+		return &sendFileState{item: manifest.FileItem{Size: size}, chunkSize: chunk, totalChunks: chunkTotal(size, chunk)}
+	}
+	s := mk()
+	for {
+		idx, n, ok := s.nextChunkToSend()
+		if !ok {
+			break
+		}
+		sched = append(sched, [2]uint32{idx, n})
+		if uint32(len(sched)) > s.totalChunks+1 {
+			break
+		}
+	}
+	for i := uint32(0); i < s.totalChunks; i++ {
+		s.mu.Lock()
+		s.resendPending, s.resendChunk = true, i
+		s.mu.Unlock()
+		if idx, n, ok := s.nextChunkToSend(); ok {
+			resendAfter = append(resendAfter, [2]uint32{idx, n})
+		}
+		b := mk()
+		b.resendPending, b.resendChunk = true, i
+		if idx, n, ok := b.nextChunkToSend(); ok {
+			resendBefore = append(resendBefore, [2]uint32{idx, n})
+		}
+	}
+	return
 }
